@@ -23,5 +23,5 @@ if __name__ == '__main__':
         'C03', ['c03'],
         'TLC-generated models rendered to SQL by /repo; an independent DDL reader returns the statements; TraceSql.tla executes them '
         'on the catalog machine of SqlExec.tla and compares with ExpectedCatalog(model)',
-        'case = (model seed, route in {parsed, built}); non-trivial = >= 1 flag, default, index, note or non-public schema',
+        'case = (model seed, route in {parsed, built, morphed = built from other content, rendered, edited in place}); non-trivial = >= 1 flag, default, index, note or non-public schema',
         nontrivial, 80001, 250, 5000))
